@@ -73,9 +73,23 @@ def rule_heap_discipline(ck, rid="C11.R1"):
     ck.count("who-writes sites(_queue)", n)
 
 
+def _len_self(e):
+    """len(self) on the queue is self.__len__() = len(self._queue) (C11.R5 checks __len__ itself): rewritten so that the atoms read alike"""
+    class T(ast.NodeTransformer):
+        def visit_Call(self, n):
+            self.generic_visit(n)
+            if isinstance(n.func, ast.Name) and n.func.id == "len" and len(n.args) == 1 and isinstance(n.args[0], ast.Name) and n.args[0].id == "self":
+                return ast.copy_location(ast.Call(func=n.func, args=[ast.Attribute(value=ast.Name(id="self", ctx=ast.Load()), attr="_queue", ctx=ast.Load())], keywords=[]), n)
+            if isinstance(n.func, ast.Attribute) and n.func.attr == "__len__" and isinstance(n.func.value, ast.Name) and n.func.value.id == "self" and not n.args:
+                return ast.copy_location(ast.Call(func=ast.Name(id="len", ctx=ast.Load()), args=[ast.Attribute(value=ast.Name(id="self", ctx=ast.Load()), attr="_queue", ctx=ast.Load())], keywords=[]), n)
+            return n
+    import copy as _c
+    return T().visit(_c.deepcopy(e))
+
+
 def _cut_atom(fl, node, a, t, tparam):
     """classify a branch fact of get_current_events: 'nonempty' / 'empty' / 'cut' (head <= t) / 'notcut' / 'strict' / None"""
-    e = fl.expand(a, node)
+    e = _len_self(fl.expand(a, node))
     ce = canon(e)
     if ce == "self.empty()":
         return "empty" if t else "nonempty"
@@ -192,7 +206,7 @@ def rule_derived(ck, rid="C11.R5"):
         for r in rets_:
             if r.expr is None:
                 continue
-            ex_ = fl.expand(r.expr, r)
+            ex_ = fl.expand(r.expr, r) if name == "__len__" else _len_self(fl.expand(r.expr, r))
             bound = set()
             for x in ast.walk(ex_):
                 if isinstance(x, ast.comprehension):
@@ -204,7 +218,7 @@ def rule_derived(ck, rid="C11.R5"):
             if name == "__len__":
                 ck.require(canon(ex_) == "len(self._queue)", rid, m, r.expr, ok="length of the heap array", bad=f"__len__ returns `{canon(ex_)[:50]}`, not len(self._queue)", sink="__len__-value")
             if name == "empty":
-                pols = [_cut_atom(fl, r, a_, t_, "?") for a_, t_ in edge_facts(fl.expand(r.expr, r), True)]
+                pols = [_cut_atom(fl, r, a_, t_, "?") for a_, t_ in edge_facts(ex_, True)]
                 ck.require(pols == ["empty"], rid, m, r.expr, ok="true exactly when nothing is pending", bad=f"empty() returns `{canon(ex_)[:50]}`, which is not `the heap array is empty`", sink="empty-value")
             extra = {x for x in lv if x not in ("self._queue", "self.empty()", "self.queue", "len", "max")}
             ck.require(not extra, rid, m, r.expr, ok="a function of the heap array only",
@@ -266,7 +280,13 @@ def rule_restore(ck, rid="C11.R6"):
             for t in n.stmt.targets:
                 if isinstance(t, ast.Subscript) and canon(t) in ('attribute_dict["_queue"]', "attribute_dict['_queue']"):
                     hit += 1
-                    ok, why = order_preserving_list(fl, n.stmt.value, n, lambda it: canon(it) == "self._queue")
+                    # a list stored first and filled afterwards is the same object: judged as it is when the function returns
+                    at = n
+                    if isinstance(n.stmt.value, ast.Name):
+                        rets_ = [x for x in fl.cfg.nodes if x.kind == "return" and x in fl.cfg.reach(n)]
+                        if rets_ and all(fl.defs_at(x, n.stmt.value.id) == fl.defs_at(n, n.stmt.value.id) | {d for d in fl.defs_at(x, n.stmt.value.id) if d is n} for x in rets_):
+                            at = rets_[-1]
+                    ok, why = order_preserving_list(fl, n.stmt.value, at, lambda it: canon(it) == "self._queue")
                     ck.require(ok, rid, td, n.stmt, ok=f"dumped in array order ({why})", bad=f"dump does not keep the heap array order: {why}",
                                sink="dump-order")
     if hit == 0:
